@@ -8,6 +8,8 @@
 //   results: drop / duplicate id; type & libfunc declarations: delete, generic-arg values set to
 //   {0,1,-1,2^15,2^16-1,2^63,2^64-1,2^64,2^128,P-1,P,2^256}, type args swapped;
 //   functions: entry point out of range / into the middle, params dropped / duplicated, unknown type.
+// Corpus: small hand-written and example programs (all mutants), the 382 programs of the e2e test
+// files (a fixed sample of each), three big contracts (thorough, sampled).
 #![allow(dead_code, unused_imports)]
 use std::panic::{catch_unwind, AssertUnwindSafe};
 
@@ -63,10 +65,13 @@ fn __verif_n_c14_mutations() {
             if let Ok(s) = std::fs::read_to_string(root.join(f)) { all.push((format!("sample:{}", f.rsplit('/').next().unwrap()), s)); }
         }
     }
-    if thorough { for (n, s) in sierra_mutants::e2e_corpus() { all.push((format!("e2e-sample:{n}"), s)); } }
+    // the e2e programs (every libfunc family in real compiler output): a small fixed sample of each
+    // in the quick tier, a larger one in the thorough tier
+    let e2e_k = if thorough { 120 } else { 12 };
+    for (n, s) in sierra_mutants::e2e_corpus() { all.push((format!("e2e-sample:{n}"), s)); }
     for (name, src) in all {
         let Ok(p) = ProgramParser::new().parse(&src) else { continue };
-        let ms = if name.starts_with("e2e-sample:") { sierra_mutants::sample_mutants(&p, 120, &mut seed) } else if name.starts_with("sample:") {
+        let ms = if name.starts_with("e2e-sample:") { sierra_mutants::sample_mutants(&p, e2e_k, &mut seed) } else if name.starts_with("sample:") {
             // a seeded sample of 2500 mutants, built lazily (the full space of a big program does not fit in memory)
             let n = count_mutants(&p);
             let mut pick = std::collections::HashSet::new();
